@@ -188,6 +188,7 @@ func init() {
 			rules.O123f(rc, red)
 			rules.O8f(rc, red, 0)
 			rules.P2(rc, red, 12)
+			rules.SP(rc, "C08", 6)
 			rules.EC(rc, fileFilterName("defaultengine_mapreduce.go", "defaultengine_argmethods.go", "dense_reduction_methods.go", "dense_argmethods.go", "api_reduction.go", "dense_mapreduce.go"), 14)
 			rules.LGuards(rc, "C08")
 		},
@@ -204,6 +205,7 @@ func init() {
 			rules.I12(rc)
 			rules.S9(rc)
 			rules.S2(rc)
+			rules.SP(rc, "C15", 2)
 			rules.TMask(rc)
 			rules.E1(rc, fileFilterName("dense_mask_filling.go", "dense_mask_inspection.go", "dense.go", "iterator.go", "iterator_mult.go"), 5)
 		},
@@ -327,6 +329,7 @@ func init() {
 		Quick: []string{"default", "inplacetranspose", "noasm"},
 		Run: func(rc *rules.RC) {
 			rules.B1(rc)
+			rules.SP(rc, "C20", 6)
 			rules.LGuards(rc, "C20")
 			rules.K3(rc, fileFilter("defaultenginefloat32.go", "defaultenginefloat64.go"), 0, 0)
 			fams := rules.Families(rc.P)
